@@ -2,6 +2,7 @@
 """seed_keep.py <ID>_<tag> <detected_by: e.g. 'C06 quick'> <result line>  -> /verif/seeded/<ID>_<tag>/"""
 import json, os, shutil, sys
 tag, detected, result = sys.argv[1], sys.argv[2], sys.argv[3]
+note = sys.argv[4] if len(sys.argv) > 4 else None
 src = f"/tmp/wt_out/{tag}"; dst = f"/verif/seeded/{tag}"
 os.makedirs(dst, exist_ok=True)
 shutil.copy(f"{src}/rebased.diff", f"{dst}/patch.diff")
@@ -19,5 +20,7 @@ meta["verified_by_me"] = {
     "what_i_ran": "notes/seed_verify.sh (rebase onto /repo HEAD in the scratch worktree, cargo test --workspace --offline, demo with/without the change), then notes/seed_test.sh (git -C /repo apply; ./check; git -C /repo checkout -- .)",
 }
 meta["detection"] = {"check": detected, "result": result}
+if note:
+    meta["detection"]["history"] = note
 json.dump(meta, open(f"{dst}/meta.json", "w"), indent=1)
 print("kept", dst)
